@@ -55,11 +55,19 @@ PROPS = {
                   "CV.deliver_rejected_unchanged", "CV.later_failure_unchanged", "CV.runMsgs_fails", "CV.Coinswap.poolTax_ok", "CV.total_supply_inv", "CV.Coinswap.rejected_unchanged_monitor", "CV.Coinswap.swap_conserves_monitor", "CV.Coinswap.remove_conserves_monitor", "CV.Coinswap.add_conserves_monitor", "CV.Coinswap.add_monitor_core", "CV.Coinswap.addAll_points", "CV.Coinswap.addAll_totals", "CV.Coinswap.removeEffs_sender_lpt", "CV.Coinswap.nodup_eraseDups"] + _CS_BRIDGE_CORE,
         comps={"outcome", "bank", "pools"}, triggers=_CS_TRIGGERS, assumptions=_CS_ASSUME),
     "C08": dict(
-        suite="coinswap", modules=["CantoVerif.Props.C08", "CantoVerif.Props.C08AutoSwap", "CantoVerif.Props.C08Add"] + _CS_BRIDGE_MODULES,
+        suite="coinswap", modules=["CantoVerif.Props.C08", "CantoVerif.Props.C08AutoSwap", "CantoVerif.Props.C08Add", "CantoVerif.Props.CoinswapPrices"] + _CS_BRIDGE_MODULES,
         theorems=["CV.Coinswap.deadline_respected", "CV.Coinswap.deadline_monitor", "CV.Coinswap.swap_delivered", "CV.Coinswap.swap_delivered_monitor", "CV.Coinswap.swap_full", "CV.Coinswap.swap_bounds_rounding_monitor", "CV.Coinswap.autoSwap_full", "CV.Coinswap.autoSwap_monitors", "CV.Coinswap.add_full", "CV.Coinswap.add_bounds_cap_monitor", "CV.Coinswap.addEffs_exact", "CV.Coinswap.find_insertPool", "CV.Coinswap.remove_bounds_monitor", "CV.Coinswap.removeEffs_exact", "CV.Coinswap.swapEffs_exact", "CV.Coinswap.notPast_of_not_pastDeadline", "CV.Coinswap.sell_exact_in_min_out",
                   "CV.Coinswap.buy_exact_out_max_in", "CV.Coinswap.add_bounds", "CV.Coinswap.remove_bounds",
                   "CV.Coinswap.sell_bound_tight", "CV.Coinswap.inputPrice_ok", "CV.Coinswap.outputPrice_ok",
-                  "CV.Coinswap.addLiveAmounts_ok", "CV.Coinswap.removeAmounts_ok"] + _CS_BRIDGE,
+                  "CV.Coinswap.addLiveAmounts_ok", "CV.Coinswap.removeAmounts_ok",
+                  # Props/CoinswapPrices.lean: the two quotes as functions - monotone, mutually consistent, always rounded in the pool's
+                  # favour, splitting a sale never pays more, a higher fee never favours the trader (pure kernels and guarded versions)
+                  "CV.Arith.inputPrice_mono", "CV.Arith.inputPrice_lt_reserve", "CV.Arith.outputPrice_mono", "CV.Arith.outputPrice_pos",
+                  "CV.Arith.sell_of_buy_quote", "CV.Arith.buy_of_sell_quote", "CV.Arith.buy_of_sell_quote_tight",
+                  "CV.Arith.le_inputPrice_of_outputPrice_le", "CV.Arith.outputPrice_le_of_le_inputPrice", "CV.Arith.outputPrice_succ_gt",
+                  "CV.Arith.sell_split_le", "CV.Arith.sell_split_needs_fee_nonneg", "CV.Arith.fee_mono_sell", "CV.Arith.fee_mono_buy",
+                  "CV.Coinswap.inputPrice_mono", "CV.Coinswap.outputPrice_mono", "CV.Coinswap.sell_of_buy_quote", "CV.Coinswap.buy_of_sell_quote",
+                  "CV.Coinswap.sell_split_le", "CV.Coinswap.fee_mono_sell", "CV.Coinswap.fee_mono_buy"] + _CS_BRIDGE,
         comps={"outcome", "bank", "resp"}, triggers=_CS_TRIGGERS, assumptions=_CS_ASSUME),
     "C09": dict(
         suite="coinswap", modules=["CantoVerif.Props.C09", "CantoVerif.Props.C09Monitors", "CantoVerif.Props.C08Add"] + _CS_BRIDGE_MODULES,
